@@ -161,5 +161,34 @@ theorem c10_forward_reply (s : State) (now : Nat) (req : Bytes) (hopen : s.u.clo
     (step s now noFaults (.forward req)).2 = .forwarded (0xAA :: req) := by
   simp [step, hopen, noFaults]
 
+/-- A sign request with signature flags does to the state exactly what the plain request does, and
+    it succeeds only when the plain request does, with the same key: a failure of the underlying
+    agent is never turned into a success by asking again in another form. -/
+theorem c10_sign_flags (rsaKey : Nat → Bool) (s : State) (now : Nat) (f : Faults) (b : Blob) :
+    (stepSignFlags rsaKey s now f b).1 = (step s now f (.sign b)).1 ∧
+    ∀ k, (stepSignFlags rsaKey s now f b).2 = .signed (.ok k) →
+      (step s now f (.sign b)).2 = .signed (.ok k) ∧ rsaKey k = true := by
+  unfold stepSignFlags
+  split
+  · rename_i s' k heq
+    rw [heq]
+    refine ⟨rfl, ?_⟩
+    intro k'
+    by_cases hr : rsaKey k = true
+    · simp only [hr, if_true]
+      intro h
+      simp only [Out.signed.injEq, SignRes.ok.injEq] at h
+      subst h
+      exact ⟨rfl, hr⟩
+    · simp only [hr]
+      intro h
+      simp at h
+  · rename_i r hne
+    refine ⟨rfl, ?_⟩
+    intro k h
+    exact absurd h (by
+      intro h'
+      exact hne _ k (by rw [← h']))
+
 end C10
 end Ysshra
